@@ -19,6 +19,10 @@ RULE = ("FULL PRODUCT of: certificate (absent; 0/1/2 common names x extended key
         "answers: 500 on the user look-up, non-JSON body, no groups member) x a request (read-only Query on every "
         "configuration; on a rotating basis a state-changing Create, a Get, a KMIP 2.0 request, an engine-refused "
         "request, an undecodable frame); each on a real KmipSession + real KmipEngine with the engine entry wrapped. "
+        "Sessions of SEVERAL requests during which the directory behind the plug-ins changes (user's groups replaced, "
+        "user removed, user added, service going down / coming back, with one and two SLUGS blocks): every request of "
+        "the connection must be served under the identity established for THAT request (or refused) - an identity "
+        "established once is no licence for later requests.  "
         "non-trivial = every configuration; distinct = distinct (certificate, tls flag, plug-in list, request)")
 ASSUMPTIONS = [
     "the TLS stack hands over either no certificate or a DER certificate the `cryptography` package can load "
@@ -154,6 +158,74 @@ def run_config(rig, cfg):
         except Exception as e:
             o["decode_error"] = "%s: %s" % (type(e).__name__, e)
     return o
+
+
+class PhasedSlugs(S.FakeSlugs):
+    """a directory that changes between the requests of one connection: phases[k] is in force while the k-th
+    frame is handled"""
+
+    def __init__(self, phases):
+        S.FakeSlugs.__init__(self, phases[0])
+        self.phases = phases
+        self.k = -1
+
+    def next_frame(self):
+        self.k += 1
+        self.services = dict(self.phases[min(self.k, len(self.phases) - 1)])
+
+
+def phased_configs():
+    """-> list of (label, settings, [services per frame])"""
+    U = "http://slugs%d.example"
+    one = [("auth:slugs", {"enabled": "True", "url": U % 0})]
+    two = one + [("auth:slugs:b", {"enabled": "True", "url": U % 1})]
+    out = []
+    seqs = [["ok:g1", "ok:g2"], ["ok:g1", "nouser"], ["nouser", "ok:g1"], ["ok:g1", "down", "ok:g1"], ["ok:g1,g2", "nogroups"],
+            ["ok:g1", "ok:g1", "nouser", "ok:g3"], ["ok:g1", "oknogroups"], ["ok:", "ok:g1"], ["down", "down", "ok:g9"]]
+    for sq in seqs:
+        out.append(("phased:" + ">".join(sq), one, [{U % 0 + "/": k} for k in sq]))
+    for a, b in [(["ok:g1", "nouser"], ["ok:h1", "ok:h1"]), (["down", "ok:g1"], ["ok:h1", "nouser"]),
+                 (["nouser", "nouser"], ["ok:h1", "ok:h2"]), (["ok:g1", "down"], ["nouser", "nouser"])]:
+        out.append(("phased2:%s|%s" % (">".join(a), ">".join(b)), two,
+                    [{U % 0 + "/": x, U % 1 + "/": y} for x, y in zip(a, b)]))
+    return out
+
+
+def run_phased(rig, cert, tls, pc, frame):
+    """one connection carrying len(phases) copies of the frame; -> one pseudo-outcome per frame (the shape
+    `monitor` reads) and the per-frame configurations"""
+    label, settings, phases = pc
+    slugs = PhasedSlugs(phases)
+    cls = S.session_mod.KmipSession
+    orig = cls._receive_request
+
+    def patched(self_):
+        data = orig(self_)
+        slugs.next_frame()
+        return data
+    cls._receive_request = patched
+    before = rig.digest()
+    try:
+        res = rig.run_session([frame] * len(phases), S.cert_der(cert), tls=tls,
+                              auth_settings=[(n, dict(c)) for n, c in settings], slugs=slugs, digests=False)
+    finally:
+        cls._receive_request = orig
+    unchanged = rig.digest() == before
+    its = [it for it in res["iterations"] if it["frame"] is not None]
+    outs = []
+    for k, it in enumerate(its):
+        o = {"res": {"run_escaped": res["run_escaped"], "max_response_size": res["max_response_size"]}, "unchanged": unchanged,
+             "slugs_calls": [], "its": [it], "calls": list(it["calls"]), "sent": list(it["sent"]), "obs": None,
+             "decode_error": None}
+        if len(o["sent"]) == 1:
+            try:
+                o["obs"] = S.decode_response(o["sent"][0], rig.default_version)
+            except Exception as e:
+                o["decode_error"] = "%s: %s" % (type(e).__name__, e)
+        cfg = {"cert": cert, "tls": tls, "plugins": ("%s#%d" % (label, k), settings, phases[min(k, len(phases) - 1)]),
+               "request": ("query-1.2", frame)}
+        outs.append((cfg, o))
+    return outs, len(its) == len(phases)
 
 
 def monitor(rig, cfg, o, verdict):
@@ -307,6 +379,28 @@ def execute(ctx, cfgs, with_model=True):
                 if want is not UNSPEC:
                     elines.append(json.dumps(establish_line(cfg)))
                     ewant.append((want, cfg))
+        # several requests on one connection while the directory changes
+        qframe = requests_pool()[0][1]
+        qverdict = verdicts.get(qframe) or S.parse_verdict(qframe, rig.default_version)
+        st["phased_frames"] = 0
+        for cert in ({"cns": 1, "eku": "client"}, {"cns": 1, "eku": "both"}):
+            for tls in (True, False):
+                for pc in phased_configs():
+                    outs_k, complete = run_phased(rig, cert, tls, pc, qframe)
+                    if not complete:
+                        ctx.report("c17:session-stopped-early", "a connection carrying %d requests (%s) answered only %d"
+                                   % (len(pc[2]), pc[0], len(outs_k)),
+                                   {"kind": "phased", "cert": cert, "tls": tls, "label": pc[0], "settings": pc[1], "phases": pc[2]})
+                    for cfg_k, o_k in outs_k:
+                        st["phased_frames"] += 1
+                        st["distinct"].add((json.dumps(cert), tls, cfg_k["plugins"][0], "query-1.2"))
+                        for sig, what in monitor(rig, cfg_k, o_k, qverdict):
+                            ctx.report(sig, "request %s of one connection: %s" % (cfg_k["plugins"][0], what),
+                                       {"kind": "phased", "cert": cert, "tls": tls, "label": pc[0],
+                                        "settings": pc[1], "phases": pc[2]})
+                        if with_model and o_k["obs"] is not None:
+                            lines.append(json.dumps(model_line(rig, cfg_k, o_k, qverdict)))
+                            impls.append((impl_event(o_k, qframe), cfg_k))
         # outside the property's quantifier (see ASSUMPTIONS), observed and counted: a certificate blob the
         # `cryptography` package cannot load.  Whatever the answer, request processing must not be entered.
         frame = cfgs[0]["request"][1] if cfgs else requests_pool()[0][1]
@@ -345,12 +439,13 @@ def run(ctx):
     cfgs = corpus_cfgs() + configurations(ctx.seed, ctx.tier)
     st, divs = execute(ctx, cfgs)
     ctx.coverage.update({
-        "evaluations": st["n"], "distinct_nontrivial": len(st["distinct"]), "rule": RULE, "samples": st["samples"],
+        "evaluations": st["n"] + (st.get("phased_frames") or 0), "distinct_nontrivial": len(st["distinct"]), "rule": RULE, "samples": st["samples"],
         "configurations": st["n"], "plugin_configurations": len(plugin_configs()), "certificate_shapes": len(cert_shapes()),
         "identity_established": st["established"], "engine_entered": st["entered"], "answers": dict(st["answers"]),
         "by_certificate": dict(st["by_cert"]), "slugs_http_requests": st["slugs_requests"],
         "traces_validated_against_impl": st["n"], "model_divergences": len(divs), "full_product": True,
         "unloadable_certificate_observation": st.get("unloadable_certificate"),
+        "requests_on_connections_with_changing_directory": st.get("phased_frames"),
     })
     if divs:
         n0 = len(ctx.violations)
@@ -369,6 +464,22 @@ def search(ctx, broken):
 
 def replay(ctx, rep):
     r = rep["replay"]
+    if r.get("kind") == "phased":
+        import props.c12 as c12
+        rig = S.Rig()
+        try:
+            c12.setup_base(rig)
+            qframe = requests_pool()[0][1]
+            pc = (r["label"], [(n, dict(c)) for n, c in r["settings"]], [dict(p) for p in r["phases"]])
+            outs_k, complete = run_phased(rig, r["cert"], r["tls"], pc, qframe)
+            bad = not complete
+            for cfg_k, o_k in outs_k:
+                for sig, what in monitor(rig, cfg_k, o_k, S.parse_verdict(qframe, rig.default_version)):
+                    print("  %s: %s" % (sig, what))
+                    bad = True
+            return not bad
+        finally:
+            rig.close()
     if r.get("kind") != "config":
         print("replay: nothing executable in this file (%s)" % r.get("kind"))
         return True
